@@ -139,6 +139,9 @@ def _check_inplace(ctx, case, T):
     q0 = ask(A, lambda p: p)
     d0 = I.shape_data(r0[1]) if r0[0] == "ok" and op not in ("in", "pt") else None
     mv = (vx, vy) if (vx, vy) != (0, 0) else (F(5), F(-3))
+    if case.get("order", 0) == 1 and max(abs(mv[0]), abs(mv[1])) * max(k, 1) > 10 ** 6:
+        # move first, then scale: the translation is scaled too; stay within the property's range (translations up to 1e6)
+        mv = (F(5), F(-3))
     steps = [("scale", k), ("move", mv)] if case.get("order", 0) == 0 else [("move", mv), ("scale", k)]
     steps.append(("move", (-mv[1], mv[0] / 2)))
     sc, tr = F(1), (F(0), F(0))                   # the map so far: p -> sc * p + tr
